@@ -7,6 +7,8 @@ import (
 	"fmt"
 	"io"
 	"io/ioutil"
+	"sync"
+	"sync/atomic"
 	"time"
 
 	"github.com/alibaba/RedisShake/pkg/redis"
@@ -287,6 +289,67 @@ func c10(c *wk.Ctx) {
 		}
 	}
 	r.Count("roundtrips", int64(nRT))
+
+	// ---- (1b) encodings are values of their own: a batch encoded first and used afterwards, and several goroutines
+	// encoding and decoding at the same time (one parser and one sender per source link share the package)
+	for b := 0; b < c.N(50, 1000); b++ {
+		type held struct{ got, want []byte }
+		var hs []held
+		for k := 0; k < 30; k++ {
+			v := genValue(rng, 0, false)
+			got, err := redis.EncodeToBytes(fromV(v))
+			if err == nil {
+				hs = append(hs, held{got, refresp.Encode(v)})
+			}
+		}
+		r.Case("rt|held-batch")
+		r.Count("held_encodings", int64(len(hs)))
+		for i, h := range hs {
+			if !bytes.Equal(h.got, h.want) {
+				r.Violationf("C10|encode|outcome=encoding-changed-after-it-was-returned", map[string]interface{}{"value_encoding_hex": fmt.Sprintf("%x", trunc(h.want, 400))}, "encoding #%d of a batch of %d reads %q after the later ones were produced, RESP encoding is %q", i, len(hs), trunc(h.got, 120), trunc(h.want, 120))
+				break
+			}
+		}
+	}
+	{
+		const workers = 8
+		var wg sync.WaitGroup
+		var mu sync.Mutex
+		bad := ""
+		var rounds int64
+		per := c.N(500, 10000)
+		for w := 0; w < workers; w++ {
+			wg.Add(1)
+			wr := rng.Split(uint64(0xC10000 + w))
+			go func(wr *prng.R) {
+				defer wg.Done()
+				for i := 0; i < per; i++ {
+					v := genValue(wr, 0, false)
+					want := refresp.Encode(v)
+					got, err := redis.EncodeToBytes(fromV(v))
+					msg := ""
+					if err != nil || !bytes.Equal(got, want) {
+						msg = fmt.Sprintf("Encode gave %q (%v), RESP encoding is %q", trunc(got, 120), err, trunc(want, 120))
+					} else if dv, _, derr, pan := toolDecode(want, 16+wr.Intn(2)*4080); pan != "" || derr != nil || !refresp.Equal(dv, v) {
+						msg = fmt.Sprintf("Decode of %q gave another value (%v %s)", trunc(want, 120), derr, pan)
+					}
+					if msg != "" {
+						mu.Lock()
+						bad = fmt.Sprintf("with %d goroutines using the codec at the same time: %s", workers, msg)
+						mu.Unlock()
+						return
+					}
+					atomic.AddInt64(&rounds, 1)
+				}
+			}(wr)
+		}
+		wg.Wait()
+		r.Case("rt|concurrent-codec")
+		r.Count("concurrent_codec_rounds", rounds)
+		if bad != "" {
+			r.Violationf("C10|roundtrip|outcome=concurrent-use-corrupts-values", nil, "%s", bad)
+		}
+	}
 
 	// ---- (2) streams (in child processes: MustDecodeOpt is the only API exposing the offset and it exits the process on error)
 	nST := c.N(600, 6000)
